@@ -241,7 +241,14 @@ func checkC09() int {
 	for _, k := range sortedKeys(ct) {
 		add("corpus", ct[k])
 	}
-	cases := genCases(c, c.pick(150, 1500), 9, mixedOpt)
+	cases := genCases(c, c.pick(200, 2000), 9, func(i int) *gen.Opt {
+		if i%2 == 0 {
+			return mixedOpt(i / 2)
+		}
+		o := polOpt(i) // explicit polarities on a quarter of all name occurrences
+		o.Pol = 30
+		return o
+	})
 	for _, pc := range cases {
 		add("G1", pc.Text)
 	}
